@@ -221,7 +221,7 @@ def tie_both_styles(ck, pool, cases):
             if impl != model:
                 bad = {"model_text": model, "impl_text": impl}
             readable, gflag, has_header = parts[6] == "1", parts[7] == "1", parts[8] == "1"
-            ck.hist(f"tie:treeReadable={parts[6]} treeG={parts[7]}")
+            ck.hist(f"tie:treeReadable={parts[6]} treeG={parts[7]} embedOk={parts[9] if len(parts) > 9 else '?'}")
             if readable and not has_header and impl is not None:
                 ck.count(("readtree", hexs(json.dumps(c["tree"], ensure_ascii=False)), st), nontrivial)
                 if rd != canon:
@@ -315,7 +315,9 @@ def run(tier, seed):
         "canonicalised (rules: " + "; ".join(cc.CANON_RULES) + "), then compared as rule lists; status and error message "
         "must agree too. Inputs: generated model CssStmt trees (also the byte-for-byte tie of both styles against "
         "Grass.Serialize), generated SassScript programs (nesting, &, placeholders/@extend, mixins, control flow, maps, "
-        "math, colour and string functions, interpolation in selectors/properties/values/queries), the golden corpus "
+        "math, colour and string functions, interpolation in selectors/properties/values/queries; on every tree with the "
+        "guard treeReadable the Lean reader readTree run on GRASS's text must return canonTop, and the same tree for both "
+        "styles when treeG holds — C05_read_roundtrip / C06_style_equiv_model), the golden corpus "
         "(test cases without random()/unique-id()), and SassScript-visible probes: "
         f"{len(PROBE_VALUES)} values (numbers <1, float noise of both signs below the printing precision, colours, colour-on-the-left "
         f"operators, lists, calculations, selector functions, rgb()/hsl() with var(), meta.calc-args, values ending in an escaped ;) x "
